@@ -65,6 +65,7 @@ Ltac dcmp c :=
   | (?a >? ?b) => rewrite (Z.gtb_ltb a b); destruct (Z.ltb_spec b a)
   | (?a >=? ?b) => rewrite (Z.geb_leb a b); destruct (Z.leb_spec b a)
   | (?a ?= ?b) => destruct (Z.compare_spec a b)
+  | (if ?x then _ else _) => dcmp x
   | negb ?x => dcmp x
   | andb ?x _ => dcmp x
   | orb ?x _ => dcmp x
@@ -81,12 +82,14 @@ Ltac head_eff2 e :=
   end.
 Ltac fin := first [ rf | exfalso; lia | f_equal; lia ].
 Ltac tie2_step :=
-  cbn [bind negb andb orb]; ck_ground; cbn [bind negb andb orb];
+  cbv beta iota zeta; cbn [bind negb andb orb Bool.eqb fst snd]; ck_ground; cbn [bind negb andb orb];
   try (match goal with |- ?a = ?b => constr_eq a b end; reflexivity);
   match goal with
   | |- context [bind ?e _] => head_eff2 e
   | |- context [if ?c then _ else _] => dcmp c
   | |- context [match (?a ?= ?b) with _ => _ end] => destruct (Z.compare_spec a b)
+  | |- context [match ?o with Some _ => _ | None => _ end] => destruct o eqn:?; cbn [option_map obind]
+  | |- context [option_map _ ?o] => destruct o eqn:?; cbn [option_map obind]
   end.
 Ltac tie2 := lit_divs; repeat tie2_step; cbn [bind negb andb orb]; try fin.
 
